@@ -6,6 +6,7 @@ import (
 	"flag"
 	"fmt"
 	"os"
+	"os/exec"
 	"path/filepath"
 	"sort"
 	"strconv"
@@ -75,6 +76,13 @@ func main() {
 	if *prop == "all" || *prop == "" {
 		ids = rules.IDs()
 	}
+	// thorough tier: seeded-variant self test (each variant is ANALYSED through an overlay in its own process)
+	selftest := map[string]interface{}{}
+	if *tier == "thorough" && *ovDir == "" {
+		for _, id := range ids {
+			selftest[id] = runSelfTest(*repo, *verif, id)
+		}
+	}
 	code := 0
 	for _, id := range ids {
 		run, ok := rules.Registry[id]
@@ -92,6 +100,9 @@ func main() {
 			}()
 			run(r, p)
 		}()
+		if st, ok := selftest[id]; ok {
+			r.Extra("variants", st)
+		}
 		if c := r.Finish(p, *verif, rules.Controls[id]); c != 0 {
 			code = c
 		}
@@ -183,4 +194,97 @@ func dumpFn(p *engine.Program, f *ssa.Function) {
 		sort.Strings(bs)
 		fmt.Printf(" loop header=b%d over %s body={%s}\n", l.Header.Index, engine.Expr(l.X), strings.Join(bs, ","))
 	}
+}
+
+// runSelfTest analyses every seeded change recorded for the property under
+// /verif/seeded (and those seeded for other properties that this property's
+// rules are known to catch are ignored) in a child process with an overlay, and
+// reports which were detected. It tests the checker, it is not a property
+// verdict: results go to the evidence as coverage.variants and are printed as
+// SELFTEST lines, never as VIOLATION.
+func runSelfTest(repo, verif, prop string) map[string]interface{} {
+	type res struct {
+		ID       string   `json:"id"`
+		Detected bool     `json:"detected"`
+		Rules    []string `json:"rules,omitempty"`
+		Note     string   `json:"note,omitempty"`
+	}
+	dirs, _ := filepath.Glob(filepath.Join(verif, "seeded", prop+"-*"))
+	sort.Strings(dirs)
+	out := make([]res, len(dirs))
+	sem := make(chan struct{}, 8)
+	done := make(chan int, len(dirs))
+	self, _ := os.Executable()
+	for i, d := range dirs {
+		go func(i int, d string) {
+			sem <- struct{}{}
+			defer func() { <-sem; done <- i }()
+			id := filepath.Base(d)
+			out[i] = res{ID: id}
+			tmp, err := os.MkdirTemp("", "mcvet-selftest-")
+			if err != nil {
+				out[i].Note = err.Error()
+				return
+			}
+			defer os.RemoveAll(tmp)
+			ov := filepath.Join(tmp, "ov")
+			vf := filepath.Join(tmp, "verif")
+			_ = os.MkdirAll(filepath.Join(vf, "checker"), 0o755)
+			_ = os.Symlink(filepath.Join(verif, "checker", "controls"), filepath.Join(vf, "checker", "controls"))
+			if b, e := os.ReadFile(filepath.Join(verif, "known_findings.json")); e == nil {
+				_ = os.WriteFile(filepath.Join(vf, "known_findings.json"), b, 0o644)
+			}
+			patch, err := os.ReadFile(filepath.Join(d, "patch.diff"))
+			if err != nil {
+				out[i].Note = "no patch"
+				return
+			}
+			for _, line := range strings.Split(string(patch), "\n") {
+				if strings.HasPrefix(line, "+++ b/") {
+					rel := strings.TrimPrefix(line, "+++ b/")
+					if b, e := os.ReadFile(filepath.Join(repo, rel)); e == nil {
+						_ = os.MkdirAll(filepath.Dir(filepath.Join(ov, rel)), 0o755)
+						_ = os.WriteFile(filepath.Join(ov, rel), b, 0o644)
+					}
+				}
+			}
+			pc := exec.Command("patch", "-s", "-p1", "--no-backup-if-mismatch", "-i", filepath.Join(d, "patch.diff"))
+			pc.Dir = ov
+			if e := pc.Run(); e != nil {
+				out[i].Note = "patch no longer applies to /repo's current tree (skipped)"
+				return
+			}
+			cmd := exec.Command(self, "-repo", repo, "-verif", vf, "-property", prop, "-tier", "quick", "-overlay-dir", ov)
+			b, _ := cmd.CombinedOutput()
+			seen := map[string]bool{}
+			for _, line := range strings.Split(string(b), "\n") {
+				if strings.HasPrefix(line, "VIOLATION ") {
+					out[i].Detected = true
+				}
+				for _, kind := range []string{"[violation]", "[anchor-lost]", "[undecided]", "[rule-dead]"} {
+					if j := strings.Index(line, kind); j > 0 {
+						f := strings.Fields(line[:j])
+						if len(f) >= 2 {
+							seen[f[len(f)-1]] = true
+						}
+					}
+				}
+			}
+			for k := range seen {
+				out[i].Rules = append(out[i].Rules, k)
+			}
+			sort.Strings(out[i].Rules)
+		}(i, d)
+	}
+	for range dirs {
+		<-done
+	}
+	det := 0
+	for _, r := range out {
+		if r.Detected {
+			det++
+		}
+		fmt.Printf("SELFTEST property=%s variant=%s detected=%v rules=%v %s\n", prop, r.ID, r.Detected, r.Rules, r.Note)
+	}
+	return map[string]interface{}{"seeded_variants": len(out), "detected": det, "results": out}
 }
